@@ -183,6 +183,15 @@ func CheckVictims(w *World, rec *CycleRecord) ([]Finding, VictimFacts) {
 		// net effect of this decision on every pod set: evicted active pods that are not re-placed leave,
 		// pods of the set that are placed by the decision (moved victims, nominated siblings) count as members
 		placedPerSet := map[setKey]int{}
+		// ... and so do pods of the set that earlier decisions of the same cycle bound or nominated and that were not
+		// active when the cycle began (the scheduler counts them as members when it shrinks an elastic workload)
+		for _, f := range FoldCalls(rec.Before, rec.Calls[:d.from]).Fates {
+			if f.Start != StActive && (f.State == StBound || f.State == StNominated) {
+				if pv := rec.Before.ByName[f.Pod]; pv != nil {
+					placedPerSet[setKey{pv.Workload, pv.SubGroup}]++
+				}
+			}
+		}
 		evictedHere := map[string]bool{}
 		for k := d.from; k < d.to; k++ {
 			c := rec.Calls[k]
